@@ -92,6 +92,31 @@ pub fn run(_args: &Args) -> i32 {
     let m = l.merge(&r).unwrap();
     println!("5 both all-null: {}", rows_json(&logical(m.column(0).as_ref())));
 
+    // 7. merge_with_schema with a sliced list (offsets not starting at 0)
+    let item_l = StructArray::new(Fields::from(vec![Field::new("a", DataType::Int32, true)]), vec![Arc::new(Int32Array::from(vec![1, 2, 3, 4])) as ArrayRef], None);
+    let item_r = StructArray::new(Fields::from(vec![Field::new("b", DataType::Int32, true)]), vec![Arc::new(Int32Array::from(vec![10, 20, 30, 40])) as ArrayRef], None);
+    let fl = Arc::new(Field::new("item", item_l.data_type().clone(), true));
+    let fr = Arc::new(Field::new("item", item_r.data_type().clone(), true));
+    let ll = ListArray::new(fl, OffsetBuffer::from_lengths([1, 2, 1]), Arc::new(item_l), None);
+    let rl = ListArray::new(fr, OffsetBuffer::from_lengths([1, 2, 1]), Arc::new(item_r), None);
+    let both = DataType::List(Arc::new(Field::new("item", DataType::Struct(Fields::from(vec![Field::new("a", DataType::Int32, true), Field::new("b", DataType::Int32, true)])), true)));
+    let sch = Schema::new(vec![Field::new("s", both, true)]);
+    for (o, n) in [(0usize, 3usize), (0, 2), (1, 2)] {
+        let l = batch_of("s", Arc::new(ll.slice(o, n)));
+        let r = batch_of("s", Arc::new(rl.slice(o, n)));
+        let m = catch(|| l.merge_with_schema(&r, &sch));
+        match m {
+            Ok(Ok(m)) => println!("7 mws sliced list ({o},{n}): {}", rows_json(&logical(m.column(0).as_ref()))),
+            other => println!("7 mws sliced list ({o},{n}): {:?}", other.map(|x| x.map(|_| ()))),
+        }
+    }
+    // 8. take with a null index
+    let b = batch_of("s", Arc::new(Int32Array::from(vec![1, 2, 3])));
+    let m = catch(|| b.take(&UInt32Array::from(vec![Some(1), None])));
+    println!("8 take null index: {:?}", m.map(|x| x.map(|b| rows_json(&logical(b.column(0).as_ref())))));
+    let m = catch(|| b.take(&UInt32Array::from(vec![Some(1), Some(7)])));
+    println!("8 take oob index: {:?}", m.map(|x| x.map(|b| rows_json(&logical(b.column(0).as_ref())))));
+
     // 6. empty batches
     let e = RecordBatch::new_empty(Arc::new(Schema::empty()));
     let m = catch(|| e.merge(&e));
